@@ -915,6 +915,12 @@ func (c *Client) traces(ctx context.Context, url string, bm blockmap, start, lim
 		if len(res.Result) == 0 {
 			return fmt.Errorf("no rpc error but empty result")
 		}
+		for j := range res.Result {
+			if n := res.Result[j].BlockNum; n != start+i {
+				const tag = "trace_block trace of another block. requested=%d got=%d"
+				return fmt.Errorf(tag, start+i, n)
+			}
+		}
 		block, ok := bm[res.Result[0].BlockNum]
 		if !ok {
 			return fmt.Errorf("missing block in block map")
